@@ -144,6 +144,8 @@ type vfHeld struct {
 type vfC16Obs struct {
 	msg       string
 	snaps     int64
+	unknown   int64 // remote calls answered with 'no such service / object / method'
+	remote    int64 // remote calls made
 	overlaps  int64
 	finished  [][]int // continuous / motion files as uniform values
 	contFiles [][]int
@@ -229,7 +231,11 @@ func vfC16Run(c vfC16Case, withReq bool) *vfC16Obs {
 						return newSnapshot(arg)
 					}
 					f := new(cptvframe.Frame)
+					atomic.AddInt64(&o.remote, 1)
 					if err := remote.Call(dbusName+".TakeSnapshot", 0, arg).Store(f); err != nil {
+						if de, ok := err.(dbus.Error); ok && (strings.Contains(de.Name, "UnknownMethod") || strings.Contains(de.Name, "UnknownObject") || strings.Contains(de.Name, "ServiceUnknown") || strings.Contains(de.Name, "UnknownInterface")) {
+							atomic.AddInt64(&o.unknown, 1)
+						}
 						return nil, err
 					}
 					return f, nil
@@ -560,6 +566,10 @@ func vfRunC16(c vfC16Case) *kit.Result {
 			r.Failf("motion recording %s of the request-free run is missing or altered when requests are served", k)
 			return r
 		}
+	}
+	if a.remote >= 3 && a.unknown == a.remote {
+		r.Failf("all %d TakeSnapshot calls made over D-Bus were answered with 'unknown service / object / method': the service's methods are not reachable on the bus after startService", a.remote)
+		return r
 	}
 	r.Count("snapshots_returned", int(a.snaps))
 	r.Count("snapshots_overlapping_processing", int(a.overlaps))
